@@ -23,7 +23,10 @@ def site(f: FuncInfo, n: Optional[ast.AST] = None) -> str:
 
 def calls_in(root: ast.AST, local: bool = True) -> List[ast.Call]:
     it = walk_local(root) if local else ast.walk(root)
-    return [n for n in it if isinstance(n, ast.Call)]
+    out = [n for n in it if isinstance(n, ast.Call)]
+    if local and isinstance(root, ast.Call):
+        out.insert(0, root)
+    return out
 
 
 def call_name(c: ast.Call) -> str:
